@@ -53,6 +53,10 @@ def setters(db, name, nargs):
 
 
 def run(db, cx):
+    # shared with C08: the field driver never integrates a sub-step past the requested chord
+    # (otherwise the track moves further than its reported step length; seeded change c05e)
+    import C08 as _c08
+    _c08.substep_bounded(db, cx, rule="C05.7-substep-bounded")
     eff = effects.Effects(db)
     cx.floor("step actions found", len(eff.actions()), 10)
 
